@@ -197,7 +197,17 @@ impl BetTable {
         // must be present in the table data before buffers of that size are allocated
         let flags_size = u64::from(header.flag_count) * 4;
         let file_table_bits = u64::from(header.file_count) * u64::from(header.table_entry_size);
-        let hashes_size = u64::from(header.bet_hash_array_size / 8) * 8;
+        // Name hash 2 array: one bit-packed entry per file, each takes the total size, of
+        // which the effective size is the hash
+        let total_bet_hash_size = header.total_bet_hash_size;
+        let bet_hash_size = header.bet_hash_size;
+        if bet_hash_size > 64 || bet_hash_size > total_bet_hash_size {
+            return Err(Error::invalid_format(format!(
+                "Invalid BET name hash size: {bet_hash_size} of {total_bet_hash_size} bits"
+            )));
+        }
+        let hashes_size =
+            (u64::from(header.file_count) * u64::from(total_bet_hash_size)).div_ceil(8);
         let available = (table_data.len() - data_start) as u64;
         if flags_size + file_table_bits.div_ceil(8) + hashes_size > available {
             return Err(Error::invalid_format(format!(
@@ -224,12 +234,19 @@ impl BetTable {
         let mut file_table = vec![0u8; file_table_size];
         cursor.read_exact(&mut file_table)?;
 
-        // Read BET hashes
-        let hash_count = header.bet_hash_array_size / 8; // Each hash is 8 bytes
-        let mut bet_hashes = Vec::with_capacity(hash_count as usize);
-        for _ in 0..hash_count {
-            bet_hashes.push(cursor.read_u64::<LittleEndian>()?);
-        }
+        // Read BET hashes (name hash 2 of every file)
+        let mut hash_array = vec![0u8; hashes_size as usize];
+        cursor.read_exact(&mut hash_array)?;
+        let bet_hashes = (0..header.file_count as usize)
+            .map(|index| {
+                read_bits(
+                    &hash_array,
+                    index * total_bet_hash_size as usize,
+                    bet_hash_size,
+                )
+                .ok_or_else(|| Error::invalid_format("BET name hash array too small"))
+            })
+            .collect::<Result<Vec<u64>>>()?;
 
         Ok(Self {
             header,
@@ -398,21 +415,20 @@ impl BetTable {
 
     /// Verify if a file index matches the expected hash for a filename
     ///
-    /// Returns true if the BET hash for the given file_index matches the computed
-    /// Jenkins hashlittle2 hash for the filename.
+    /// Returns true if the name hash 2 stored for the given file_index is the one of the
+    /// filename.
     ///
-    /// Note: BET uses the SAME hash algorithm as HET (jenkins_hashlittle2 with uppercase).
-    /// The stored hash may be truncated to bet_hash_size bits.
+    /// The name hash of a file is its Jenkins hashlittle2 hash cut to the width of the HET
+    /// table, with the top bit set. The top eight bits of it are name hash 1, stored in
+    /// the HET table; the rest is name hash 2, stored here. So the name hash is eight bits
+    /// wider than `bet_hash_size`.
     pub fn verify_file_hash(&self, file_index: u32, filename: &str) -> bool {
         if let Some(stored_hash) = self.get_file_hash(file_index) {
-            // BET uses the same hash as HET: jenkins_hashlittle2 with uppercase normalization
-            // The bet_hash_size field tells us how many bits are stored
             let bet_hash_size = self.header.bet_hash_size;
 
-            // Compute the hash using hashlittle2 (same as HET)
-            let (full_hash, _name_hash1) = crate::crypto::het_hash(filename, bet_hash_size);
-
-            // Mask to the number of bits stored in BET
+            // Compute the name hash (same as HET) and drop name hash 1
+            let name_hash_size = bet_hash_size.saturating_add(8).min(64);
+            let (full_hash, _name_hash1) = crate::crypto::het_hash(filename, name_hash_size);
             let mask = if bet_hash_size >= 64 {
                 u64::MAX
             } else {
@@ -439,4 +455,28 @@ impl BetTable {
             false
         }
     }
+}
+
+/// Read `bit_count` (at most 64) bits at `bit_position` of a bit-packed array (least
+/// significant bit first)
+fn read_bits(data: &[u8], bit_position: usize, bit_count: u32) -> Option<u64> {
+    if bit_count > 64 {
+        return None;
+    }
+    if (bit_position + bit_count as usize).div_ceil(8) > data.len() {
+        return None;
+    }
+
+    // Byte by byte: a field that does not start on a byte boundary can span nine bytes
+    let mut value = 0u64;
+    let mut read = 0u32;
+    while read < bit_count {
+        let position = bit_position + read as usize;
+        let shift = (position % 8) as u32;
+        let take = (8 - shift).min(bit_count - read);
+        let bits = (data[position / 8] >> shift) & (((1u16 << take) - 1) as u8);
+        value |= u64::from(bits) << read;
+        read += take;
+    }
+    Some(value)
 }
